@@ -1190,7 +1190,7 @@ class PathEval:
                     pe = PathEval(self.fx, b, max_paths=12, inline=self.inline, _stack=self._stack + (key,), desugar=self.desugar)
                     ps = pe.paths()
                     ok = all(p.end[0] in ("return", "diverge", "unreachable") for p in ps)
-                    bad_heads = ("loc", "havoc", "mutated", "undef", "refmut")
+                    bad_heads = ("havoc", "undef")      # callee-local `loc` / `mutated` identities are renamed apart on substitution (_Subst)
                     summ = []
                     for p in ps:
                         if p.end[0] == "unreachable":
@@ -1307,6 +1307,9 @@ class _Subst:
             return t
         if t[0] == "param" and len(t) == 2 and isinstance(t[1], int):
             r = self.args[t[1] - 1] if 1 <= t[1] <= len(self.args) else t
+        elif t[0] in ("loc", "mutated") and len(t) > 1 and isinstance(t[1], int) and t[1] >= 0:
+            # a local of the inlined callee: keep its identity apart from the caller's locals (argument terms are spliced in whole, never visited here)
+            r = (t[0], -(t[1] + 1) - 1000 * (self.bb + 1)) + tuple(self(x) if isinstance(x, tuple) else x for x in t[2:])
         elif t[0] == "call" and len(t) == 5:
             site = t[4]
             r = ("call", t[1], t[2], tuple(self(a) for a in t[3]), (None if site is None else -(self.bb * 10000 + site + 1)))
